@@ -175,6 +175,9 @@ func (r *MetricRegistry) RegisterDistribution(
 		ID = strings.TrimPrefix(ID, ".")
 	}
 
+	r.mu.Lock()
+	defer r.mu.Unlock()
+
 	// only add once
 	if l, ok := r.registeredListeners[ID]; ok {
 		return l
@@ -198,6 +201,9 @@ func (r *MetricRegistry) RegisterTiming(
 		ID = strings.TrimPrefix(ID, ".")
 	}
 
+	r.mu.Lock()
+	defer r.mu.Unlock()
+
 	// only add once
 	if l, ok := r.registeredListeners[ID]; ok {
 		return l
@@ -220,6 +226,9 @@ func (r *MetricRegistry) RegisterCount(
 	if strings.HasPrefix(ID, ".") {
 		ID = strings.TrimPrefix(ID, ".")
 	}
+
+	r.mu.Lock()
+	defer r.mu.Unlock()
 
 	// only add once
 	if l, ok := r.registeredListeners[ID]; ok {
